@@ -11,7 +11,7 @@ between steps and other jobs run to completion beforehand (prior history).  For 
     every step's optimum is unique (`ties=0`), otherwise only the cost is comparable.
 
 Stream `jsched` (system model, lean/TrackpyV/Model/JobsLinker.lean, Props/C04Sys): 2-3 plain
-`link_iter` jobs stepped in a generated order; the same cfgs + schedule go to the driver op `JSCHED`
+`link_iter` / `link_df_iter` jobs stepped in a generated order; the same cfgs + schedule go to the driver op `JSCHED`
 (`runSched .perLinker`).  Per job: the uuids of the points of every level (recorded through a
 wrapper of `Linker.update_hash`) must be the model's; when the monitor accepts the job's output with
 `ties=0 capped=0` its partition, the number of levels it yielded and whether it raised
@@ -27,13 +27,22 @@ from .common import Result
 PROP = "C04"
 RULE = ("schedules of 2-4 interleaved generators (link_iter, link_df_iter, find_link_iter) with "
         "1-6 levels each, complete tp.link calls injected between steps, prior-history prefixes; "
-        "thorough: every interleaving of 3 jobs x <=3 steps for a set of base movies.  "
+        "thorough: every interleaving of 3 jobs x <=3 steps for a set of base movies.  Stream jsched: "
+        "2-3 link_iter / link_df_iter jobs (2-5 levels, memory 0-2, Linker.MAX_SUB_NET_SIZE lowered to "
+        "1-3 in 30 % of the cases), shuffled or round-robin order, the same schedule through the system "
+        "model (JSCHED): uuids of every level's points, and partition / levels yielded / raise when "
+        "every optimum is unique.  "
         "Non-trivial = at least two jobs are really interleaved (some job is stepped between two "
         "steps of another) and at least one trajectory is born after a first level; distinct = "
         "distinct canonical schedule+movies.")
 ASSUMPTIONS = [
     "generator steps are atomic (single-threaded interleaving); thread-level races are outside "
     "the model",
+    "jsched: the implementation is compared with the system model's labels as PARTITIONS and only for "
+    "jobs whose every step has a unique optimum and stays within the documented caps (ties=0, "
+    "capped=0 reported by the monitor); Point.uuid values are read through a wrapper of "
+    "Linker.update_hash and compared exactly; Linker.MAX_SUB_NET_SIZE is one class attribute for all "
+    "jobs of a schedule",
     "which integer names a trajectory is unspecified: ids are compared as per-step sets with the "
     "per-job counter model, partitions by content",
     "partition equality with the solo run is required only when every step has a unique optimum; "
@@ -200,7 +209,7 @@ def gen_cases(ctx):
 
 
 def gen_jsched(rng):
-    """a schedule of 2-3 plain link_iter jobs for the system model (`JSCHED`)"""
+    """a schedule of 2-3 plain link_iter / link_df_iter jobs for the system model (`JSCHED`)"""
     nj = rng.randint(2, 3)
     small = rng.random() < 0.3       # Linker.MAX_SUB_NET_SIZE set low: some jobs die of an oversize sub-net
     jobs = []
@@ -208,7 +217,7 @@ def gen_jsched(rng):
         mv = linkcommon.gen_movie(rng, thorough=False, plant_history=True)
         mv["frames"] = mv["frames"][:rng.randint(2, 5)]
         mv["memory"] = min(mv["memory"], 2)
-        mv["kind"] = mv["entry"] = "link_iter"
+        mv["kind"] = mv["entry"] = rng.choice(["link_iter", "link_iter", "link_df_iter"])
         mv["scale_pow"] = 0
         mv["strategy"] = rng.choice(["recursive", "nonrecursive"] if small
                                     else ["recursive", "nonrecursive", "numba", None])
